@@ -80,7 +80,13 @@ def oracle (o : OSt) (w : List String) (res : String) (snap : ISnap) : OSt × Op
               else if g.op = " ".intercalate w && !g.tainted && res.replace " rt 1 " " rt 0 " != g.out then
                 (o, some s!"retransmission differs from the original: '{res}' vs '{g.out}'")
               else (o, none)
-      | _, _ => (o, none)
+      | _, _ =>
+        -- a send on a live exchange must not panic (a retransmission whose counter does not match the
+        -- remembered one trips `RetransEntry::pre_send`'s consistency check)
+        let live := match (w.getD 2 "-").toNat? with
+          | some sl => (o.prev.sess (n 1)).any (fun s => (s.slots.getD sl none).isSome)
+          | none => false
+        (o, if res = "panic" && live then some "sending on a live exchange panicked" else none)
     | "rx" =>
       -- reliable, no ack flag, addressed to an exchange id with a pending original: taint (see `Orig.tainted`)
       if w.getD 5 "-" = "-" && w.getD 6 "" = "r" then
